@@ -259,6 +259,15 @@ def rule_dummy_delegation(ctx):
             if ok and m != "new_argument":
                 ok = any(o.kind == "call" and o.site.bb == calls[0].bb for o in origins(b, {"l": 0, "p": []}, transparent=()))
             r.check(ok, b.id, "not-forwarded", "%s forwards to AAFramework::%s and returns its result" % (m, m), "%s does not forward to AAFramework::%s (or drops its result)" % (m, m), b.loc())
+            # ... with its own operands, in the order it received them (`remove_attack(from, to)` forwards `(from, to)`)
+            if ok and len(calls) == 1:
+                swapped = []
+                for k, a in enumerate(calls[0].node["args"][1:]):
+                    ps = {o.data for o in origins(b, a) if o.kind == "param" and not o.fields}
+                    others = [o for o in origins(b, a) if not (o.kind == "param" and not o.fields)]
+                    if ps and not others and ps != {k + 2}:
+                        swapped.append((k + 2, sorted(ps)))
+                r.check(not swapped, b.id + "|operands", "operands-permuted:%s" % swapped, "%s forwards its operands in the order it received them" % m, "%s hands its operands to AAFramework::%s in another order (position -> parameter: %s): the update applied is not the one requested" % (m, m, swapped), calls[0].loc())
             # ... and applies no other update to the framework (a redundant update must stay a no-op of the store)
             extra = [s for y in prog.with_closures(b) for s in y.calls() if callee_matches(callee_of(s), r"^aa::aa_framework::AAFramework::(new_argument|remove_argument|new_attack|remove_attack|new_attack_by_ids)$") and not callee_matches(callee_of(s), r"^aa::aa_framework::AAFramework::%s$" % m)]
             r.check(not extra, b.id + "|only", "second-update:%s" % sorted({callee_decl(callee_of(s)).rsplit("::", 1)[-1] for s in extra}), "%s applies no other update to the framework" % m, "%s also applies %s to the framework: the update is no longer the store's own (a redundant or invalid update changes it)" % (m, sorted({callee_decl(callee_of(s)).rsplit("::", 1)[-1] for s in extra})), extra[0].loc() if extra else b.loc())
